@@ -238,6 +238,9 @@ type Ctx struct {
 	TrustedBase  []string
 }
 
+// theProg: the program under analysis, for leaf functions that have no context argument.
+var theProg *Prog
+
 func verifDir() string {
 	if d := os.Getenv("VERIF_DIR"); d != "" {
 		return d
@@ -261,6 +264,7 @@ func newCtx(p *Prog, prop, tier string) (*Ctx, error) {
 		return nil, err
 	}
 	setInlinePolicy()
+	theProg = p
 	return c, nil
 }
 
